@@ -219,7 +219,7 @@ def run(chk, scratch):
         extra = ["--splice_correction_strategy", st, "--no_model_construction"]
         if not annotated:
             extra += ["--illumina_bam", os.path.join(d, "short.bam")]
-        r = pipeline.run(d, out, data_type=dt, threads=2, annotated=annotated, home=out + "_home", extra=extra)
+        r = pipeline.run(d, out, data_type=dt, threads=1 + len(st) % 2, annotated=annotated, home=out + "_home", extra=extra)
         return job, out, r
     judged = 0
     changed_total = 0
